@@ -20,7 +20,7 @@ def run_bounds(ctx, mod, bounds, K=32, argv=(), reserve=25):
         if ctx.deadline.left() < reserve and out["done"]:
             out["exhaustive"] = False
             break
-        if rate and len(cases) > 1500 and len(cases) / rate * 2.0 > ctx.deadline.left() - reserve:      # would not finish: do not start it
+        if not ctx.quick and rate and len(cases) > 1500 and len(cases) / rate * 2.0 > ctx.deadline.left() - reserve:      # would not finish: do not start it
             out["exhaustive"] = False
             out["not_started"] = name
             break
